@@ -139,7 +139,7 @@ package dagsync
 //@   ensures old(syncedCount) < 9223372036854775807 ==> syncedCount == old(syncedCount) + 1
 
 //@ func (*handler).handle
-//@   property C04 C08 C01 C14
+//@   property C04 C08 C01 C14 C15
 //@   requires h != nil && h.subscriber != nil && syncer != nil && !held(h.syncMutex) && syncerOK(syncer) && ctx != nil
 //@   requires h.subscriber.scopedBlockHook != nil && h.subscriber.scopedBlockHookMutex != nil && !held(h.subscriber.scopedBlockHookMutex)
 //@   modifies mapof(h.subscriber.scopedBlockHook)
@@ -168,6 +168,9 @@ package dagsync
 //@   at call Sync: assert syncedCount == gcount
 //@   at call Sync: after ghost gcount := syncedCount
 //@   ensures result1 == nil ==> result0 == gcount
+// C15: handle is shared with explicit syncs, which Close lets finish: it has no shutdown exit of its own
+// (announce-triggered syncs are cancelled through their context)
+//@   ensures-local count("recv:closing") == 0
 //@   ghost segSync0 := zero("*cid.Cid")
 //@   at call reset: ghost segSync0 := segSync.nextSyncCid
 //@   at call withRecursionLimit: assert arg0 == sel && arg1.mode == 1 && arg1.depth == nextDepth
